@@ -134,10 +134,10 @@ def merge_runs(r, s, prefix="small:"):
                 nontrivial=r["nontrivial"] + s["nontrivial"], samples=r["samples"][:2] + s["samples"][:2])
 
 
-def add_big(ctx, r, n, steps=34, seed_off=7777):
+def add_big(ctx, r, n, steps=34, seed_off=7777, profile="big"):
     """also run the `big` profile (bulk-built graphs of 15-45 nodes with tie-heavy keys; ordered searches cut inside large results,
     path searches whose conditions fail on some elements, traversal-stopping conditions chained with or) and merge into r"""
-    b = run_db(ctx, "big", n, steps, sub="db_big", seed_off=seed_off)
+    b = run_db(ctx, profile, n, steps, sub="db_" + profile, seed_off=seed_off)
     out = dict(r)
     out["cases"] = r["cases"] + b["cases"]
     out["histories"] = r["histories"] + b["histories"]
